@@ -143,6 +143,23 @@ def opToposort (j : Json) : Except String Json := do
   let out := toposort log
   pure <| Json.mkObj [("order", Json.arr (out.map (fun r => Json.num (JsonNumber.fromNat r.id))).toArray)]
 
+/-- `{"op":"toposort_run","log":[...],"order":[ids]}` → `{"is_run": b}`: is `order` (the ids in the
+    order the implementation yielded them) a complete run of the work-list-generic Kahn algorithm on
+    `log` (`Swh.ToposortGen.isRun`)?  Each id is mapped back to the first revision of the log with
+    that id; an id that is not in the log makes the answer `false`. -/
+def opToposortRun (j : Json) : Except String Json := do
+  let log ← (← getArr j "log").toList.mapM (fun r => do
+    let id ← getN r "id"
+    let ps ← (← getArr r "parents").toList.mapM (fun x => x.getNat?)
+    pure (Rev.mk id ps))
+  let ids ← (← getArr j "order").toList.mapM (fun x => x.getNat?)
+  let byId : Std.HashMap Nat Rev :=
+    log.foldl (fun m r => if m.contains r.id then m else m.insert r.id r) {}
+  let ok := match ids.mapM (fun i => byId[i]?) with
+    | none => false
+    | some order => Swh.ToposortGen.isRun log order
+  pure <| Json.mkObj [("is_run", Json.bool ok)]
+
 /-! #### C16 time -/
 
 def jErr (e : ErrKind) : Json :=
@@ -790,6 +807,7 @@ def dispatch (op : String) (j : Json) : Except String Json :=
   | "snp_manifest" => opSnpManifest j
   | "snp_decode" => opSnpDecode j
   | "toposort" => opToposort j
+  | "toposort_run" => opToposortRun j
   | "offset_table" => opOffsetTable j
   | "offset_parse" => opOffsetParse j
   | "fmt_date" => opFmtDate j
